@@ -257,3 +257,66 @@ Proof.
   - exact El.
   - vm_compute in El. injection El as <-. vm_compute. reflexivity.
 Qed.
+
+(* ================================================================================================
+   7. Idempotence with comments in leading position - PROVED (Proofs/FormatStructIdem.v)
+
+   [lead_only p] (Props/C09.v section 5): comments only in front of `type` / `proc` / `var` / a parameter / the first token of
+   a statement that is not a block-as-branch.  The second run sees other comment tokens (text " " + trim s instead of s) and a
+   tree with other doc fields; the printers read of a token only its printed form, whether it is a comment and whether it is a
+   literal (a relational argument over all printers), never read a doc field, and `trim (" " ++ trim s) = trim s` - so the
+   second run prints the same text.  This is [C11_idempotent_full_statement] for every document that is a layout of a valid
+   program with comments in leading position only.  Open: comments in the other gaps (where the first run loses the comment
+   or moves it in front of the construct). *)
+From Spl Require Import Proofs.FormatStructIdem.
+
+Theorem C11_idempotent_lead : forall p toks ins ts txt,
+  prog_ok p = true -> lead_only p = true -> aprog_valid p = true -> map tk toks = flatten p ++ [Eof] ->
+  fmt_program (options_of ins ts) (expected p) toks = FOk txt ->
+  format_request txt ins ts = Done None.
+Proof. exact idempotent_lead. Qed.
+Print Assumptions C11_idempotent_lead.
+
+Theorem C11_idempotent_document_lead : forall p doc toks ins ts,
+  prog_ok p = true -> lead_only p = true -> aprog_valid p = true ->
+  lex doc = Some toks -> map tk toks = flatten p ++ [Eof] ->
+  exists out, formatted_text doc ins ts = Done out /\ format_request out ins ts = Done None.
+Proof. exact idempotent_document_lead. Qed.
+Print Assumptions C11_idempotent_document_lead.
+
+(* //d<CR LF>proc main(//p<LF>a:int){//s<LF>if(a)//t<LF>;else//u<LF>if(a){}} *)
+Definition c11_cprog : aprog :=
+  {| a_decls :=
+       [DProc [str "d" ++ [13]] [] (str "main") []
+          (Some (PVal [str "p"] (str "a") [] (TName [] (str "int")), [])) [] [] []
+          (SCons
+             (SIfE [str "s"] [] (c11_f (FVar (AName [] (str "a")))) []
+                (SEmp [str "t"]) []
+                (SIfT [str "u"] [] (c11_f (FVar (AName [] (str "a")))) [] (SBlk [] SNil [])))
+             SNil) []];
+     a_ceof := [] |}.
+Definition c11_cdoc : text :=
+  str "//d" ++ [13; 10] ++ str "proc main(//p" ++ [10] ++ str "a:int){//s" ++ [10] ++ str "if(a)//t" ++ [10] ++ str ";else//u" ++ [10]
+  ++ str "if(a){}}".
+Definition c11_cout : text :=
+  str "// d" ++ [10] ++ str "proc main(" ++ [10; 9] ++ str "// p" ++ [10; 9] ++ str "a: int" ++ [10] ++ str ") {" ++ [10; 9]
+  ++ str "// s" ++ [10; 9] ++ str "if (a)" ++ [10; 9; 9] ++ str "// t" ++ [10; 9; 9] ++ str ";" ++ [10; 9]
+  ++ str "else // u" ++ [10; 9] ++ str "if (a) {}" ++ [10] ++ str "}" ++ [10].
+
+Example C11_idempotent_lead_ex :
+  prog_ok c11_cprog = true /\ lead_only c11_cprog = true /\ aprog_valid c11_cprog = true /\ comment_free c11_cprog = false
+  /\ match lex c11_cdoc with Some toks => map tk toks = flatten c11_cprog ++ [Eof] | None => False end
+  /\ formatted_text c11_cdoc false 4 = Done c11_cout /\ format_request c11_cout false 4 = Done None
+  /\ format_request c11_cout true 4 <> Done None.
+Proof. vm_compute. repeat split; try reflexivity. discriminate. Qed.
+
+Example C11_idempotent_document_lead_ex : forall ins ts,
+  exists out, formatted_text c11_cdoc ins ts = Done out /\ format_request out ins ts = Done None.
+Proof.
+  intros ins ts. destruct (lex c11_cdoc) as [toks|] eqn:El; [|vm_compute in El; discriminate].
+  assert (H1 : prog_ok c11_cprog = true) by (vm_compute; reflexivity).
+  assert (H2 : lead_only c11_cprog = true) by (vm_compute; reflexivity).
+  assert (H3 : aprog_valid c11_cprog = true) by (vm_compute; reflexivity).
+  assert (H5 : map tk toks = flatten c11_cprog ++ [Eof]) by (vm_compute in El; injection El as <-; vm_compute; reflexivity).
+  exact (C11_idempotent_document_lead c11_cprog c11_cdoc toks ins ts H1 H2 H3 El H5).
+Qed.
